@@ -5,6 +5,7 @@ import (
 	"fmt"
 	"os"
 
+	"verifharness/abiref"
 	"verifharness/disc"
 	"verifharness/ec"
 	"verifharness/gold"
@@ -31,6 +32,7 @@ var checks = map[string]func(*vk.Run){
 	"C16": disc.RunC16,
 	"C19": pl.RunC19,
 	"C06": gold.RunC06,
+	"C18": abiref.RunC18,
 }
 
 func main() {
